@@ -12,11 +12,11 @@ from .. import env, core, par
 PID = "C13"
 LEVEL = "exploration"
 RULE = ("Hypothesis-generated parameter assignments for each of the 21 primitives in hdl21.primitives and for external "
-        "modules with dict, flat-paramclass and Scalar-typed parameters (Prefixed with all 21 prefixes and 1..40-digit "
+        "modules with dict, flat-paramclass, Scalar-typed and re-used library (pulse-source, resistor) parameter classes (Prefixed with all 21 prefixes and 1..40-digit "
         "mantissas, ints to +-2^63, floats incl. subnormals/extremes, Decimals, canonical numeric strings, non-numeric "
         "strings incl. padded/unicode/empty, Literals, str enums, None, raw 0/0.0/''), exported through to_proto and "
         "compared with a reference encoder; plus to_scalar on every value form; plus (1 case in 40) order cases: two values - "
-        "often the same number written differently, or the same digits under another prefix - exported one after the other in "
+        "often the same number written differently, or the same digits under another prefix - exported one after the other (as two modules, or as two instances of one module) in "
         "either order in a fresh process must each export byte-for-byte as they do alone in a fresh process. Non-trivial = a non-integral value with >15 "
         "significant digits, or a prefix other than UNIT, or a string; distinct by canonical case text.")
 ASSUME = ["a float converts to the Prefixed of its repr() digits (Decimal(repr(x))) or of its exact binary value - either accepted",
@@ -71,6 +71,9 @@ def H():
         _H["XF"] = h.ExternalModule(name="XF", port_list=[h.Port(name="p"), h.Port(name="n")], paramtype=FlatP, domain="verif")
         _H["XS"] = h.ExternalModule(name="XS", port_list=[h.Port(name="p"), h.Port(name="n")], paramtype=ScalarP, domain="verif")
         _H["FlatP"], _H["ScalarP"] = FlatP, ScalarP
+        # external modules re-using the library's own parameter classes (a behavioural pulse / sine source, a custom resistor)
+        _H["XP"] = h.ExternalModule(name="XP", port_list=[h.Port(name="p"), h.Port(name="n")], paramtype=hp.PulseVoltageSource.paramtype, domain="verif")
+        _H["XR"] = h.ExternalModule(name="XR", port_list=[h.Port(name="p"), h.Port(name="n")], paramtype=hp.IdealResistor.paramtype, domain="verif")
     return _H
 
 
@@ -263,6 +266,8 @@ def check_instance(case):
             X = g[case["ext"]]
             if case["ext"] == "XS":
                 scalar_fields = {"a", "b", "c"}
+            if case["ext"] in ("XP", "XR"):
+                scalar_fields = {k for k, p in X.paramtype.__params__.items() if "Prefixed" in str(p.dtype)}
             call = X(**params) if case["ext"] != "XD" or not case.get("as_dict") else X(dict(params))
             exp_dom, exp_name = "verif", case["ext"]
         else:
@@ -300,6 +305,8 @@ def check_instance(case):
         allowed = {rename.get(k, k) for k in getattr(g["hp"], case["prim"]).paramtype.__params__}
     elif case["ext"] == "XD":
         allowed = set(case["params"])
+    elif case["ext"] in ("XP", "XR"):
+        allowed = set(g[case["ext"]].paramtype.__params__)
     else:
         allowed = set(g["FlatP" if case["ext"] == "XF" else "ScalarP"].__params__)
     for name in got:
@@ -341,6 +348,30 @@ def check_instance(case):
     return out, notes
 
 
+def _export_together(carrier, vals):
+    """(runs in a pristine child) export ONE module holding one instance per value, in order -> serialized ParamValue of each"""
+    g = H()
+    h = g["h"]
+    try:
+        m = h.Module(name="Together")
+        for k, v in enumerate(vals):
+            val = dec(v)
+            call = g["XS"](a=val) if carrier == "XS" else g["XD"](a=val) if carrier == "XD" else g["hp"].IdealResistor(r=val)
+            inst = call()
+            for pn in call.ports:
+                inst.connect(pn, m.add(h.Signal(name="n%d_%s" % (k, pn))))
+            m.add(inst, name="i%d" % k)
+        pkg = h.to_proto(m)
+        out = []
+        byname = {i.name: i for i in pkg.modules[-1].instances}
+        for k in range(len(vals)):
+            ps = [p for p in byname["i%d" % k].parameters if p.name in ("a", "r")]
+            out.append(ps[0].value.SerializeToString() if len(ps) == 1 else "missing")
+        return out
+    except Exception as e:
+        return ["raised:%s" % type(e).__name__] * len(vals)
+
+
 def _export_seq(carrier, vals):
     """(runs in a pristine child) export one module per value, in order -> serialized ParamValue of each, or 'raised:<type>'"""
     g = H()
@@ -372,8 +403,11 @@ def check_order(case):
     """What a value exports as does not depend on what the process exported before it."""
     vals = [case["first"], case["second"]]
     alone = [par.pristine(_export_seq, case["carrier"], [v])[0] for v in vals]
-    fwd = par.pristine(_export_seq, case["carrier"], vals)
-    rev = par.pristine(_export_seq, case["carrier"], vals[::-1])[::-1]
+    fn = _export_together if case.get("together") else _export_seq  # two instances of one module / two modules exported in turn
+    fwd = par.pristine(fn, case["carrier"], vals)
+    rev = par.pristine(fn, case["carrier"], vals[::-1])[::-1]
+    if case.get("together") and any(isinstance(x, str) and x.startswith("raised") for x in alone):
+        return []  # a value that cannot be exported at all makes the joint export fail as a whole
     out = []
     for k, which in enumerate(("first", "second")):
         for got, how in ((fwd[k], "after" if k else "before"), (rev[k], "before" if k else "after")):
@@ -508,7 +542,16 @@ def strategies(tier):
 
     @st.composite
     def ext_case(draw):
-        which = draw(st.sampled_from(["XD", "XD", "XF", "XS"]))
+        which = draw(st.sampled_from(["XD", "XD", "XF", "XS", "XP", "XR"]))
+        if which in ("XP", "XR"):
+            params = {}
+            for k, p in g[which].paramtype.__params__.items():
+                ds = str(p.dtype)
+                if "Prefixed" not in ds:
+                    continue
+                if p.default is g["h"].params.Default or draw(st.booleans()):
+                    params[k] = draw(opt_scalar if "Optional" in ds else scalar_val)
+            return {"kind": "ext", "ext": which, "params": params}
         if which == "XD":
             n = draw(st.integers(0, 4))
             names = draw(st.lists(st.sampled_from(["a", "b", "w", "l", "m", "model", "tag", "x_1", "delay", "rise", "fall", "width", "period", "td",
@@ -553,7 +596,7 @@ def strategies(tier):
             b = draw(scalar_val)
         if draw(st.booleans()):
             a, b = b, a
-        return {"kind": "order", "carrier": draw(st.sampled_from(["XS", "XD", "R"])), "first": a, "second": b}
+        return {"kind": "order", "carrier": draw(st.sampled_from(["XS", "XD", "R"])), "first": a, "second": b, "together": draw(st.booleans())}
 
     scal_case = scalar_val.map(lambda v: {"kind": "to_scalar", "val": v})
     pc, ec = prim_case(), ext_case()
